@@ -102,10 +102,16 @@ def step (st : S) (toks : List String) : S × String :=
       match st.execs.find? (·.eid == eid) with
       | none => (st, "bad-op")
       | some e =>
-        let want := showOutcome (Spec.fails e.out && !e.allow) (Spec.patchApplied e.out)
-          (Spec.metricsApplied e.out) (Spec.admissionRelayed e.out) (Spec.conversionRelayed e.out)
-        let got := s!"status={status} patch={b01 p} metrics={b01 m} adm={b01 a} conv={b01 c}"
-        if got == want then (st, "true") else (st, "false want " ++ want)
+        let statusFail? := match status with
+          | "Fail" => some true | "Success" => some false | _ => none
+        match statusFail? with
+        | none => (st, "false status is neither Success nor Fail")
+        | some sf =>
+          if Spec.admits e.out e.allow sf p m a c then (st, "true")
+          else
+            let want := showOutcome (Spec.fails e.out && !e.allow) (Spec.patchApplied e.out)
+              (Spec.metricsApplied e.out) (Spec.admissionRelayed e.out) (Spec.conversionRelayed e.out)
+            (st, "false want " ++ want)
     | _, _, _, _, _, _ => (st, "bad-op")
   | "oracle" :: "env" :: rest =>
     -- started in its own directory; six variables pointing into the temp dir with the documented
